@@ -20,6 +20,49 @@ static std::string export_one_block(FilePreamble& fp, const std::vector<GenericQ
     return outs.at(0);
 }
 
+// every member / array / table entry present in block b must be allowed by the hints (qr, sig, rrh, oth) the file states for it
+static void stated_hints_respected(const ref::RBlock& b, uint32_t qr, uint32_t sig, uint8_t rrh, uint8_t oth, const std::string& pfx, std::vector<HV>& out0) {
+    struct Out { std::vector<HV>& o; const std::string& p; void push_back(HV v) { v.key = p + v.key; o.push_back(v); } } out{out0, pfx};
+    // presence => bit (bit table from RFC 8618 7.3.1.1.1; response question list shares bit 11)
+    for (size_t i = 0; i < b.qr_keys.size(); i++) {
+        uint32_t k = b.qr_keys[i];
+        for (int key = 0; key <= 10; key++) if ((k >> key & 1) && !(qr >> key & 1)) out.push_back({"excluded-member|qr-key" + std::to_string(key), "QR item " + std::to_string(i) + " carries key " + std::to_string(key) + " whose hint bit is cleared"});
+        static const int qe_bits[4] = {11, 12, 13, 14}, re_bits[4] = {11, 15, 16, 17};
+        for (int m = 0; m < 4; m++) { if ((b.qr_qe[i] >> m & 1) && !(qr >> qe_bits[m] & 1)) out.push_back({"excluded-member|query-extended-" + std::to_string(m), "QR item " + std::to_string(i) + " query-extended member " + std::to_string(m)});
+                                      if ((b.qr_re[i] >> m & 1) && !(qr >> re_bits[m] & 1)) out.push_back({"excluded-member|response-extended-" + std::to_string(m), "QR item " + std::to_string(i) + " response-extended member " + std::to_string(m)}); }
+        if ((k >> 11 & 1) && b.qr_qe[i] == 0) out.push_back({"empty-extended", "query-extended present without members"});
+    }
+    for (size_t i = 0; i < b.sig_keys.size(); i++) for (int m = 0; m <= 16; m++) if ((b.sig_keys[i] >> m & 1) && (!(sig >> m & 1) || !(qr >> 4 & 1))) out.push_back({"excluded-member|sig-key" + std::to_string(m), "signature " + std::to_string(i) + " carries key " + std::to_string(m) + " whose hint bit is cleared"});
+    for (size_t i = 0; i < b.rr_keys.size(); i++) { if ((b.rr_keys[i] & 4) && !(rrh & 1)) out.push_back({"excluded-member|rr-ttl", "rr " + std::to_string(i) + " carries ttl"}); if ((b.rr_keys[i] & 8) && !(rrh & 2)) out.push_back({"excluded-member|rr-rdata", "rr " + std::to_string(i) + " carries rdata"}); }
+    if (b.has_aec_array && !(oth & 2)) out.push_back({"excluded-array|aec", "address events stored although their hint is cleared"});
+    if (b.has_mm_array && !(oth & 1)) out.push_back({"excluded-array|mm", "malformed messages stored although their hint is cleared"});
+    for (auto& u : b.unreachable) out.push_back({"unreachable-table-entry|" + u.substr(0, u.find('[')), u + " is not referenced by any stored item (value of an excluded field kept in a table)"});
+}
+
+// The same hints under a second parameter set (index 1; set 0 excludes everything it can) used three ways: blocks buffered by the exporter after
+// set_active_block_parameters(1), a stand-alone CdnsBlock(bp, 1) handed to write_block(block), and that block cleared and filled again.
+// Every block of the file must respect the hints of the parameter set it states, and state set 1.
+static void check_hints_second_set(uint32_t qr, uint32_t sig, uint8_t rrh, uint8_t oth, const Pools& P, std::vector<HV>& out, Result& R) {
+    BlockParameters bp0; bp0.storage_parameters.max_block_items = 100000; auto& h0 = bp0.storage_parameters.storage_hints; h0.query_response_hints = 0x1; h0.query_response_signature_hints = 0; h0.rr_hints = 0; h0.other_data_hints = 0;
+    BlockParameters bp1; bp1.storage_parameters.max_block_items = 100000; bp1.storage_parameters.ticks_per_second = 1000; auto& h = bp1.storage_parameters.storage_hints; h.query_response_hints = qr; h.query_response_signature_hints = sig; h.rr_hints = rrh; h.other_data_hints = oth;
+    std::vector<BlockParameters> bps = {bp0, bp1}; FilePreamble fp(bps); std::vector<std::string> outs; static const Pools P1 = make_pools(1000);
+    model::Exporter M({model::from(bp0), model::from(bp1)}); M.set_active(1); M.write_block(); M.buffer_qr(P1.qr[0], nullptr); M.buffer_qr(P1.qr[3], nullptr); M.buffer_aec(P1.aec[1], nullptr); M.buffer_mm(P1.mm[0], nullptr);
+    if (M.cur.items() == 0) { R.outcome("second-set:nothing-storable"); return; }
+    auto fill = [&](CdnsBlock& b) { b.add_question_response_record(P1.qr[0]); b.add_question_response_record(P1.qr[3]); b.add_address_event_count(P1.aec[1]); b.add_malformed_message(P1.mm[0]); };
+    { CdnsExporter e(fp, MemSink{&outs}, CborOutputCompression::NO_COMPRESSION);
+      e.set_active_block_parameters(1); e.write_block();                                  // arm the internal block with set 1
+      e.buffer_qr(P1.qr[0]); e.buffer_qr(P1.qr[3]); e.buffer_aec(P1.aec[1]); e.buffer_mm(P1.mm[0]); e.write_block();
+      CdnsBlock b(bp1, 1); fill(b); e.write_block(b); b.clear(); fill(b); e.write_block(b); b.clear(); fill(b); e.write_block(b); }
+    ref::RFile rf; try { rf = ref::read_file(outs.at(0)); } catch (std::exception& e) { out.push_back({"second-set|invalid-output", e.what()}); return; }
+    if (rf.blocks.size() != 4) { out.push_back({"second-set|block-count", "expected 4 blocks, file has " + std::to_string(rf.blocks.size())}); return; }
+    static const char* WHO[] = {"exporter-buffered", "stand-alone", "stand-alone-reused", "stand-alone-reused-twice"};
+    for (size_t i = 0; i < 4; i++) { const ref::RBlock& b = rf.blocks[i]; const ref::RParams& rp = rf.params.at(b.bpi);
+        stated_hints_respected(b, rp.qr_hints, rp.sig_hints, rp.rr_hints, rp.other_hints, std::string("second-set|") + WHO[i] + "|", out);
+        if (b.bpi != 1) out.push_back({std::string("second-set|") + WHO[i] + "|states-other-parameter-set", std::string(WHO[i]) + " block built under parameter set 1 states set " + std::to_string(b.bpi)});
+        else if (ref::block_dump(b) != M.cur.dump()) out.push_back({std::string("second-set|") + WHO[i] + "|content-differs", std::string(WHO[i]) + " block differs from the hint-filtered expectation"}); }
+    R.outcome("second-set:ok");
+}
+
 static void check_hints(uint32_t qr, uint32_t sig, uint8_t rrh, uint8_t oth, const Pools& P, std::vector<HV>& out, Result& R) {
     BlockParameters bp; bp.storage_parameters.max_block_items = 100000;
     auto& h = bp.storage_parameters.storage_hints; h.query_response_hints = qr; h.query_response_signature_hints = sig; h.rr_hints = rrh; h.other_data_hints = oth;
@@ -36,20 +79,7 @@ static void check_hints(uint32_t qr, uint32_t sig, uint8_t rrh, uint8_t oth, con
     if (rf.blocks.size() != 1) { out.push_back({"block-count", "expected one block"}); return; }
     const ref::RBlock& b = rf.blocks[0]; const ref::RParams& rp = rf.params[0];
     if (rp.qr_hints != qr || rp.sig_hints != sig || rp.rr_hints != rrh || rp.other_hints != oth) out.push_back({"preamble-hints", "preamble states hints " + std::to_string(rp.qr_hints) + "," + std::to_string(rp.sig_hints) + "," + std::to_string(rp.rr_hints) + "," + std::to_string(rp.other_hints)});
-    // presence => bit (bit table from RFC 8618 7.3.1.1.1; response question list shares bit 11)
-    for (size_t i = 0; i < b.qr_keys.size(); i++) {
-        uint32_t k = b.qr_keys[i];
-        for (int key = 0; key <= 10; key++) if ((k >> key & 1) && !(qr >> key & 1)) out.push_back({"excluded-member|qr-key" + std::to_string(key), "QR item " + std::to_string(i) + " carries key " + std::to_string(key) + " whose hint bit is cleared"});
-        static const int qe_bits[4] = {11, 12, 13, 14}, re_bits[4] = {11, 15, 16, 17};
-        for (int m = 0; m < 4; m++) { if ((b.qr_qe[i] >> m & 1) && !(qr >> qe_bits[m] & 1)) out.push_back({"excluded-member|query-extended-" + std::to_string(m), "QR item " + std::to_string(i) + " query-extended member " + std::to_string(m)});
-                                      if ((b.qr_re[i] >> m & 1) && !(qr >> re_bits[m] & 1)) out.push_back({"excluded-member|response-extended-" + std::to_string(m), "QR item " + std::to_string(i) + " response-extended member " + std::to_string(m)}); }
-        if ((k >> 11 & 1) && b.qr_qe[i] == 0) out.push_back({"empty-extended", "query-extended present without members"});
-    }
-    for (size_t i = 0; i < b.sig_keys.size(); i++) for (int m = 0; m <= 16; m++) if ((b.sig_keys[i] >> m & 1) && (!(sig >> m & 1) || !(qr >> 4 & 1))) out.push_back({"excluded-member|sig-key" + std::to_string(m), "signature " + std::to_string(i) + " carries key " + std::to_string(m) + " whose hint bit is cleared"});
-    for (size_t i = 0; i < b.rr_keys.size(); i++) { if ((b.rr_keys[i] & 4) && !(rrh & 1)) out.push_back({"excluded-member|rr-ttl", "rr " + std::to_string(i) + " carries ttl"}); if ((b.rr_keys[i] & 8) && !(rrh & 2)) out.push_back({"excluded-member|rr-rdata", "rr " + std::to_string(i) + " carries rdata"}); }
-    if (b.has_aec_array && !(oth & 2)) out.push_back({"excluded-array|aec", "address events stored although their hint is cleared"});
-    if (b.has_mm_array && !(oth & 1)) out.push_back({"excluded-array|mm", "malformed messages stored although their hint is cleared"});
-    for (auto& u : b.unreachable) out.push_back({"unreachable-table-entry|" + u.substr(0, u.find('[')), u + " is not referenced by any stored item (value of an excluded field kept in a table)"});
+    stated_hints_respected(b, qr, sig, rrh, oth, "", out);
     std::string expect = M.cur.dump(), got = ref::block_dump(b);
     if (expect != got) { size_t p = 0; while (p < expect.size() && p < got.size() && expect[p] == got[p]) p++; size_t eq = expect.rfind('=', p), sc = eq == std::string::npos ? eq : expect.find_last_of(";{[", eq);
         out.push_back({"content-differs|" + (eq != std::string::npos && sc != std::string::npos ? expect.substr(sc + 1, eq - sc - 1) : std::string("?")), "stored block differs from the hint-filtered expectation at " + std::to_string(p) + ": expected ..." + expect.substr(p > 30 ? p - 30 : 0, 90) + " got ..." + got.substr(p > 30 ? p - 30 : 0, 90)}); }
@@ -172,7 +202,7 @@ int main(int argc, char** argv) {
         struct Case { uint32_t qr, sig; uint8_t rr, oth; };
         auto run_case = [&](const Case& c, Result& R) {
             std::string rep = "qr=" + std::to_string(c.qr) + ";sig=" + std::to_string(c.sig) + ";rr=" + std::to_string(c.rr) + ";oth=" + std::to_string(c.oth);
-            set_note(rep); std::vector<HV> out; check_hints(c.qr, c.sig, c.rr, c.oth, P, out, R); R.count("traces"); if (c.qr || c.sig) R.count("nontrivial");
+            set_note(rep); std::vector<HV> out; check_hints(c.qr, c.sig, c.rr, c.oth, P, out, R); if (((c.qr * 2654435761u) ^ (c.sig * 40503u) ^ c.rr ^ (c.oth << 3)) % 8 == 0 || (c.qr == 0x3ffff && c.sig == 0x1ffff)) { check_hints_second_set(c.qr, c.sig, c.rr, c.oth, P, out, R); R.count("second_set_cases"); } R.count("traces"); if (c.qr || c.sig) R.count("nontrivial");
             for (auto& v : out) R.violation("hints|" + v.key, v.what + " [" + rep + "]", rep);
         };
         if (!a.replay.empty()) { std::string s = slurp(a.replay); Case c; unsigned q, g, r, o; if (sscanf(s.c_str(), "qr=%u;sig=%u;rr=%u;oth=%u", &q, &g, &r, &o) != 4) return done(2); c = {q, g, (uint8_t)r, (uint8_t)o};
